@@ -140,8 +140,8 @@ func vxH15Snap(dotu bool, kmax int, namemax int) {
 		for j := 0; j < nl; j++ {
 			vxAssume(vxAll(name[j] != '/', name[j] != 0))
 		}
-		if i == 1 {
-			vxAssume(name != ents[0].name)
+		for j := 0; j < i; j++ {
+			vxAssume(name != ents[j].name)
 		}
 		var in *vxInode
 		switch vxChoose("kind", 3) {
@@ -168,7 +168,7 @@ func vxH15Snap(dotu bool, kmax int, namemax int) {
 	f.Diroffset = 5
 
 	count := vxU32("count")
-	vxAssume(count <= 200) // enough for two entries with a few bytes to spare (an entry here is 50..80 bytes)
+	vxAssume(count <= uint32(100*kmax)) // enough for all entries with bytes to spare (an entry here is 50..80 bytes)
 	rc := k.run(&Fcall{Type: Tread, Fid: 1, Offset: 0, Count: count}, 512)
 	if rc == nil {
 		return
